@@ -222,7 +222,8 @@ class Request(HTTPConnection):
                 body = (await self.body).decode(
                     encoding=self.content_type.options.get("charset", "latin-1")
                 )
-            except (UnicodeDecodeError, LookupError) as exc:
+            except (ValueError, LookupError) as exc:
+                # ValueError covers UnicodeDecodeError and what else a codec raises
                 raise HTTPException(400, content=str(exc)) from None
             return FormData(parse_qsl(body, keep_blank_values=True))
 
